@@ -57,6 +57,34 @@ def run(ctx):
                 if v.mentions_call(r'::saturating_sub$') is None:
                     okdec = False
         ctx.ob('PAIR', 'decrement-shape:%s' % rem, okdec, rb.where(), '%s re-inserts count.saturating_sub(1) only: %s' % (rem, okdec))
+        # ---- 1b. a level is released under the same presence conditions under which it was taken: the Option fields of the
+        # analysis (asn, country ..) that gate the decrement of a table are among those that gate its increment. A release
+        # that additionally needs some other field to be known never happens for nodes lacking that field: the slot leaks.
+        def presence_guards(b, c):
+            out = set()
+            for cd in F.dominating_conds(b, c.bb):
+                if cd.kind != 'disc' or cd.expr is None:
+                    continue
+                for x in cd.expr.walk():
+                    if x.k == 'field' and isinstance(x.b, str) and re.search(r'security::(IPAnalysis|IPv4Analysis|UnifiedIPAnalysis|GeoInfo)::', x.b):
+                        adt_, f_ = x.b.rsplit('::', 1)
+                        try:
+                            if prog.field_ty(adt_, f_).startswith('std::option::Option'):
+                                out.add(f_)
+                        except F.AnchorMissing:
+                            pass
+            return out
+        for T in sorted(set(ta) & set(tr)):
+            ga = set()
+            for c in ta[T]:
+                ga |= presence_guards(ab, c)
+            for c in tr[T]:
+                gr = presence_guards(rb, c)
+                extra = sorted(gr - ga)
+                ctx.ob('PAIR', 'release-guards:%s:%s' % (rem, T), not extra, c.where(),
+                       ('%s gives the %s slot back under the same presence conditions as %s took it (%s)' % (rem, T, add, sorted(ga) or 'unconditional')) if not extra else
+                       ('%s gives the %s slot back only if %s is known as well, but %s takes it without that condition: a node lacking %s keeps its %s slot for ever' % (
+                           rem, T, ', '.join(extra), add, ', '.join(extra), T)), entry=ENF + '::' + rem)
         # ---- 2. check before increment
         puts = [c for cs in ta.values() for c in cs]
         okg = bool(puts)
@@ -99,7 +127,7 @@ def run(ctx):
                         (' (halved under the hosting / VPN flag)' if halved else ' — no halving found')))
         if n < 4:
             ctx.ob('HALVING', 'limits-found:%s' % can, False, cb.where(), 'only %d counter-vs-limit comparisons recognised in %s' % (n, can))
-    ctx.floor('PAIR', 5)
+    ctx.floor('PAIR', 15)
     ctx.floor('CHECK-BEFORE-INCREMENT', 4)
     ctx.floor('CAP-CONSULTED', 8)
     ctx.floor('HALVING', 8)
